@@ -165,7 +165,7 @@ def normalise_statements(idx, module, stmts, cls=None, depth=3, keep=()):
                             envs = None
                             break
                     # element expressions must be side-effect free names / constants / tuples of those
-                    if envs is not None and all(isinstance(x, (ast.Name, ast.Constant, ast.Tuple, ast.List, ast.Load, ast.UnaryOp, ast.USub)) for env_ in envs for v_ in env_.values() for x in ast.walk(v_)):
+                    if envs is not None and all(isinstance(x, (ast.Name, ast.Constant, ast.Tuple, ast.List, ast.Load, ast.UnaryOp, ast.USub, ast.Attribute)) for env_ in envs for v_ in env_.values() for x in ast.walk(v_)):
                         for env_ in envs:
                             out.extend(norm([_subst_stmt(b, env_) for b in st.body], depth))
                         continue
@@ -226,7 +226,7 @@ def _subst_stmt(stmt, env):
     return S().visit(copy.deepcopy(stmt))
 
 
-def inline_single_exit_helpers(idx, module, func_node, only=None, depth=2):
+def inline_single_exit_helpers(idx, module, func_node, only=None, depth=2, opened=None):
     """Statement-level normal form: `T = helper(args)` (or `return helper(args)` / a bare call statement) where the helper is a library function
     whose only `return` is its last statement is replaced by the helper's body — parameters substituted by the (simple) arguments or bound to fresh
     temporaries, the helper's locals renamed apart — followed by `T = <returned expression>`.  A loop that was moved into a helper is a loop of the
@@ -255,6 +255,8 @@ def inline_single_exit_helpers(idx, module, func_node, only=None, depth=2):
         env = bind_args(cf, call)
         if env is None:
             return None
+        if opened is not None:
+            opened.add(callee.key)
         counter[0] += 1
         tag = "i%d" % counter[0]
         pre = []
